@@ -4,6 +4,7 @@
 #include <cstdarg>
 #include <cerrno>
 #include <cstring>
+#include <string>
 #include <cstdlib>
 #include <random>
 #include <unordered_map>
@@ -14,6 +15,7 @@
 
 extern "C" { int verif_tso_active = 0; }
 
+extern char** environ;
 namespace cosched {
 static thread_local LT* tls_lt = nullptr;
 static Sched* g_sched = nullptr;
@@ -44,6 +46,10 @@ __attribute__((constructor)) static void verif_no_aslr() {
     static char buf[1 << 16]; size_t n = fread(buf, 1, sizeof buf - 1, f); fclose(f); if (n == 0 || n >= sizeof buf - 1) return;
     static char* av[1024]; int ac = 0; for (size_t i = 0; i < n && ac < 1023; ) { av[ac++] = buf + i; i += strlen(buf + i) + 1; } av[ac] = nullptr;
     setenv("VERIF_ASLR_OFF", "1", 1);
+    // the initial stack (argument and environment strings + their pointer arrays) is padded to a multiple of 4 KiB, so that the main thread's stack addresses
+    // do not depend on the length of a file name or on a debugging variable
+    { unsetenv("VERIF_PAD"); size_t sum = 0; for (char** e = environ; *e; ++e) sum += strlen(*e) + 1 + 8; for (int i = 0; i < ac; i++) sum += strlen(av[i]) + 1 + 8;
+      size_t fixed = sum + strlen("VERIF_PAD=") + 1 + 8; size_t pad = (4096 - fixed % 4096) % 4096; std::string v(pad, 'x'); setenv("VERIF_PAD", v.c_str(), 1); }
     execv("/proc/self/exe", av);
 }
 void track(const void* a) { if (g_ntracked < 256) g_tracked[g_ntracked++] = a; }
